@@ -369,6 +369,36 @@ theorem lenfield_exact (C : Codec E) (L : Layout) (r : Rec E) (bs tl : Bytes)
   cases hef
   simp only [hdrLen, List.append_assoc, hdf (t ++ tl), lenOf_of_hasLen _ _ hl, hlen]
 
+/-- reading the same bytes with the tail taken as raw bytes (`_read(raw, offset, length - K)`) instead of as a list gives
+    the same fixed values and leaves the same rest -/
+theorem decode_as_rest (C : Codec E) (F : List Field) (nm lnm fam : String) (avail : Option Nat) (bs tl : Bytes)
+    (vs : List Val) (tv : TailV E) (h : decode C ⟨F, .list lnm fam⟩ avail bs = some (⟨vs, tv⟩, tl)) :
+    ∃ b, decode C ⟨F, .rest nm⟩ avail bs = some (⟨vs, .rest b⟩, tl) := by
+  unfold decode at h ⊢
+  cases hdf : decFixed F bs with
+  | none => simp [hdf] at h
+  | some p =>
+    obtain ⟨vs', len?, r⟩ := p
+    simp only [hdf] at h ⊢
+    have h0 : ¬ (Tail.list lnm fam = Tail.none) := by simp
+    have h0' : ¬ (Tail.rest nm = Tail.none) := by simp
+    simp only [h0, h0', ↓reduceIte] at h ⊢
+    cases hdec : declared len? avail with
+    | none => simp [hdec] at h
+    | some tot =>
+      simp only [hdec] at h ⊢
+      split at h
+      · simp at h
+      · rename_i h1
+        split at h
+        · simp at h
+        · rename_i h2
+          simp only [h1, h2, ↓reduceIte]
+          obtain ⟨t, _, ht⟩ := Option.map_eq_some_iff.mp h
+          simp only [Prod.mk.injEq, Rec.mk.injEq] at ht
+          obtain ⟨⟨rfl, _⟩, rfl⟩ := ht
+          exact ⟨r.take (tot - fixedSize F), by simp [decTail]⟩
+
 /-- an encoding whose layout starts with a 16-bit field starts with that field's value -/
 theorem encode_head_uint2 (C : Codec E) (L : Layout) (r : Rec E) (bs : Bytes) (nm : String) (t : Nat)
     (F : List Field) (vs : List Val) (hL : L.fixed = .uint nm 2 :: F) (hv : r.vals = .num t :: vs)
